@@ -11,16 +11,21 @@ Definition ustep := (bytes * bytes * oracle * obs * snap * bool)%type.   (* user
 
 Inductive ucase :=
 | UpgSeq (c : config) (t : tables) (m : umode) (init : dirst) (steps : list ustep)
+| UpgSeqP (c : config) (t : tables) (m : umode) (refused : list (bytes * bytes)) (init : dirst) (steps : list ustep)
+    (* the agent runs with a password policy; [refused] = the (password, user) pairs of this
+       sequence that the estimator - called by the harness, not by the agent - rates below it *)
 | Remote (right_pw slave_unchanged : bool) (master_pid : N) (master_ok : bool).
 
 Definition no_policy (pw u : bytes) : bool := true.
+Definition table_policy (refused : list (bytes * bytes)) (pw u : bytes) : bool :=
+  negb (existsb (fun x => beq (fst x) pw && beq (snd x) u) refused).
 
 (* one login and the upgrade it queues, run to quiescence *)
-Definition login (t : tables) (m : umode) (c : config) (d : dirst) (u pw : bytes) (orc : oracle) : dirst * obs :=
+Definition login (pol : bytes -> bytes -> bool) (t : tables) (m : umode) (c : config) (d : dirst) (u pw : bytes) (orc : oracle) : dirst * obs :=
   let ac := extracted_ac m in
-  let '(c1, d1, ob, _, upg) := handle_req (kdf_of t) no_policy (fun _ => orc) ac c d O (RAuth u pw) in
+  let '(c1, d1, ob, _, upg) := handle_req (kdf_of t) pol (fun _ => orc) ac c d O (RAuth u pw) in
   match upg with
-  | Some (u', pw') => let '(_, d2, _, _) := handle_upgrade (kdf_of t) no_policy (fun _ => orc) ac c1 d1 1 u' pw' in (d2, ob)
+  | Some (u', pw') => let '(_, d2, _, _) := handle_upgrade (kdf_of t) pol (fun _ => orc) ac c1 d1 1 u' pw' in (d2, ob)
   | None => (d1, ob)
   end.
 
@@ -33,25 +38,29 @@ Definition auth_obs_eqb (model observed : obs) (second : bool) : bool :=
   | _, _ => false
   end.
 
-Fixpoint replay_u (t : tables) (m : umode) (c : config) (d : dirst) (steps : list ustep) (i : N) : option N :=
+Fixpoint replay_u (pol : bytes -> bytes -> bool) (t : tables) (m : umode) (c : config) (d : dirst) (steps : list ustep) (i : N) : option N :=
   match steps with
   | [] => None
   | (u, pw, orc, ob, sn, second) :: r =>
-      let '(d', ob') := login t m c d u pw orc in
+      let '(d', ob') := login pol t m c d u pw orc in
       let same := match sn with
                   | SnapSame => dir_eqb d' d && dir_eqb d d'
                   | Snap x => dir_eqb d' x && dir_eqb x d'
                   end in
-      if auth_obs_eqb ob' ob second && same then replay_u t m c d' r (i + 1) else Some i
+      if auth_obs_eqb ob' ob second && same then replay_u pol t m c d' r (i + 1) else Some i
   end.
 
 Definition agrees (c : ucase) : bool :=
   match c with
-  | UpgSeq cfg t m init steps => match replay_u t m cfg init steps 0 with None => true | Some _ => false end
+  | UpgSeq cfg t m init steps => match replay_u no_policy t m cfg init steps 0 with None => true | Some _ => false end
+  | UpgSeqP cfg t m rf init steps => match replay_u (table_policy rf) t m cfg init steps 0 with None => true | Some _ => false end
   | Remote _ _ _ _ => true
   end.
 Definition first_diff (c : ucase) : option N :=
-  match c with UpgSeq cfg t m init steps => replay_u t m cfg init steps 0 | _ => None end.
+  match c with
+  | UpgSeq cfg t m init steps => replay_u no_policy t m cfg init steps 0
+  | UpgSeqP cfg t m rf init steps => replay_u (table_policy rf) t m cfg init steps 0
+  | _ => None end.
 
 (* ---- the property on the observed run ---- *)
 Definition first_line_b (content : bytes) : bytes :=
@@ -64,7 +73,7 @@ Definition others_same_b (u : bytes) (a b : dirst) : bool :=
                                  && negb (beq (fst e) (u ++ ext_admin))) d in
   dir_eqb (keep a) (keep b) && dir_eqb (keep b) (keep a).
 
-Fixpoint monitor_u (t : tables) (m : umode) (c : config) (cur : dirst) (steps : list ustep) (i : N) : option N :=
+Fixpoint monitor_u (pol : bytes -> bytes -> bool) (t : tables) (m : umode) (c : config) (cur : dirst) (steps : list ustep) (i : N) : option N :=
   match steps with
   | [] => None
   | (u, pw, orc, ob, sn, _) :: r =>
@@ -90,10 +99,11 @@ Fixpoint monitor_u (t : tables) (m : umode) (c : config) (cur : dirst) (steps : 
             | _, _ => false
             end
         end
-        (* on an idle agent the rewrite does happen (local mode, supported record not yet on the default set) *)
+        (* on an idle agent the rewrite does happen (local mode, supported record not yet on the default
+           set, password meets the configured policy) *)
         && match m, sn with
            | ULocal, SnapSame =>
-               negb (ok_login &&
+               negb (ok_login && pol pw u &&
                      match user_file cur u with
                      | Some (_, File old) =>
                          match spec_record c old with
@@ -103,12 +113,13 @@ Fixpoint monitor_u (t : tables) (m : umode) (c : config) (cur : dirst) (steps : 
                      | _ => false end)
            | _, _ => true
            end in
-      if good then monitor_u t m c next r (i + 1) else Some i
+      if good then monitor_u pol t m c next r (i + 1) else Some i
   end.
 
 Definition spec_ok (c : ucase) : bool :=
   match c with
-  | UpgSeq cfg t m init steps => match monitor_u t m cfg init steps 0 with None => true | Some _ => false end
+  | UpgSeq cfg t m init steps => match monitor_u no_policy t m cfg init steps 0 with None => true | Some _ => false end
+  | UpgSeqP cfg t m rf init steps => match monitor_u (table_policy rf) t m cfg init steps 0 with None => true | Some _ => false end
   | Remote rightpw slave_same pid mok =>
       slave_same && (if rightpw then (pid =? 2) && mok else (pid =? 1))
   end.
